@@ -101,9 +101,11 @@ def confirm(mid):
         m["confirm"]["note"] = "demo does not compile with the patch: " + out2[-800:]
     if rc0 != 0:
         m["confirm"]["note0"] = out0[-800:]
-    save_meta(mid, m)
+    fresh = load_meta(mid)          # `run` may have written in the meantime
+    fresh["confirm"], fresh["confirmed"] = m["confirm"], m["confirmed"]
+    save_meta(mid, fresh)
     ensure_wt()
-    return m
+    return fresh
 
 
 def run(mid, all_checks=False, tier="quick"):
@@ -138,8 +140,12 @@ def run(mid, all_checks=False, tier="quick"):
         sh(["git", "-C", "/repo", "checkout", "--", "."])
         # the evidence files written while the patch was applied do not describe /repo: restore them
         sh(["git", "checkout", "--", "evidence"], cwd=ROOT)
-    save_meta(mid, m)
-    return m
+    fresh = load_meta(mid)          # `confirm` may have written in the meantime
+    for k in ("checks", "caught", "caught_with_input", "caught_by_other_checks"):
+        if k in m:
+            fresh[k] = m[k]
+    save_meta(mid, fresh)
+    return fresh
 
 
 def main():
